@@ -3,8 +3,6 @@ package internal
 import (
 	"context"
 	"encoding/base64"
-	"errors"
-	"io"
 	"strings"
 	"time"
 
@@ -131,7 +129,9 @@ func StatsEndRPC(
 			BeginTime: beginTime,
 			EndTime:   time.Now(),
 		}
-		if appErr != nil && !errors.Is(appErr, io.EOF) {
+		// (appErr is what a unary call returned or what a handler returned: io.EOF
+		// is a failure here like any other error, and is reported to the peer as one)
+		if appErr != nil {
 			end.Error = appErr
 		}
 		sh.HandleRPC(ctx, end)
